@@ -403,6 +403,25 @@ func c16Names(r *vp.InstResult) {
 			add("legal", "", "method named "+n+" ("+m.Label()+")", gen.ServiceSpec{Service: "Svc", Messages: []string{"Req", "Resp"}, Methods: []gen.MethodSpec{m}})
 		}
 	}
+	// names that are neither documented as reserved nor obviously free: whatever the plugin does with them, it
+	// must reject them with a diagnostic or emit code that compiles ("na": reject-or-compile)
+	for _, n := range []string{"node", "quorum_spec", "configuration", "manager"} {
+		add("na", "", "message whose Go name is reserved (proto name "+n+")", gen.ServiceSpec{Service: "Svc", Messages: []string{"Req", "Resp", n}, Methods: []gen.MethodSpec{qc}})
+	}
+	for _, n := range []string{"Node", "Manager", "Configuration", "QuorumSpec"} {
+		add("na", "", "enum named "+n, gen.ServiceSpec{Service: "Svc", Messages: []string{"Req", "Resp"}, Enums: []string{n}, Methods: []gen.MethodSpec{qc}})
+		add("na", "", "service named "+n, gen.ServiceSpec{Service: n, Messages: []string{"Req", "Resp"}, Methods: []gen.MethodSpec{qc}})
+	}
+	add("na", "", "message named like a generated future type (AsyncResp)", gen.ServiceSpec{Service: "Svc", Messages: []string{"Req", "Resp", "AsyncResp"}, Methods: []gen.MethodSpec{{Name: "Read", In: "Req", Out: "Resp", Quorumcall: true, Async: true}}})
+	add("na", "", "message named like a generated correctable type (CorrectableResp)", gen.ServiceSpec{Service: "Svc", Messages: []string{"Req", "Resp", "CorrectableResp"}, Methods: []gen.MethodSpec{{Name: "Read", In: "Req", Out: "Resp", Correctable: true}}})
+	for _, n := range []string{"Nodes", "Size", "NodeIDs", "Equal", "And", "Except"} {
+		m := qc
+		m.Name = n
+		add("na", "", "quorum call named like a method of the configuration ("+n+")", gen.ServiceSpec{Service: "Svc", Messages: []string{"Req", "Resp"}, Methods: []gen.MethodSpec{m}})
+	}
+	for _, n := range []string{"ID", "Address", "LastErr", "Latency", "Host", "Port"} {
+		add("na", "", "rpc named like a method of the node ("+n+")", gen.ServiceSpec{Service: "Svc", Messages: []string{"Req", "Resp"}, Methods: []gen.MethodSpec{{Name: n, In: "Req", Out: "Resp"}}})
+	}
 	// an enum next to the messages
 	add("legal", "", "file with an enum", gen.ServiceSpec{Service: "Svc", Messages: []string{"Req", "Resp"}, Enums: []string{"Kind"}, Methods: []gen.MethodSpec{qc}})
 	if err := compileAll(filepath.Join(buildDir, "scratch", "names"), cases); err != nil {
